@@ -524,7 +524,9 @@ JudgeEvo(tr, T, ev) ==
       expressible == wellsok /\ tipsok /\ shaped /\ onecol /\ distinct /\ isomorphic /\ numsok
       isAsp == ev.op = "evo_aspirate"
       rr == RemoveRun(L, vol[k], ws, vs, 1)
-      ra == AddRun(L, vol[k], TrackedComp(tr)[k], ws, vs, Unknown(n), 1)
+      ecs == IF a.hascomps /\ tr.flags.comp /\ cok /\ Len(a.comps) = n
+             THEN Known([i \in 1..Len(a.comps) |-> Range(a.comps[i])]) ELSE Unknown(n)
+      ra == AddRun(L, vol[k], TrackedComp(tr)[k], ws, vs, ecs, 1)
       feasible == wellsok /\ shaped /\ (IF isAsp THEN rr.out = "ok" ELSE ra.out = "ok")
       ok == ev.out = "ok"
       cmds == SelectSeq(ev.recs, LAMBDA r : r.t \in {"BA", "BD"})
@@ -542,6 +544,9 @@ JudgeEvo(tr, T, ev) ==
        ev.out = (IF isAsp THEN rr.out ELSE ra.out)),
     Cl("C13.tracking", ok /\ feasible, post.vol[k] = (IF isAsp THEN rr.vol ELSE ra.vol)),
     \* C04 for the script commands: every real well changes by exactly what was asked for (not by the rounded command text)
+    \* compositions handed to evo_dispense belong to the wells in the caller's order (the i-th composition to the i-th well)
+    Cl("C05.mix", F.comp /\ cok /\ ev.cs /\ ~isAsp /\ a.hascomps /\ ok /\ feasible,
+       LET pc == CompOf(post.comp) IN \A i \in 1..Len(ra.vol) : ra.vol[i] > 0 => pc[k][i] = ra.comp[i]),
     Cl("C04.evo", ok /\ feasible, post.vol[k] = (IF isAsp THEN rr.vol ELSE ra.vol)),
     Cl("C13.onecommand", ok, Len(cmds) = 1 /\ Len(Body(ev.recs)) = 1 /\ cmds[1].t = (IF isAsp THEN "BA" ELSE "BD")),
     Cl("C13.wellformed", ok /\ Len(cmds) = 1, c.ok /\ c.nargs = 20 /\ c.tail = <<0, 0, 0, 0>> /\ c.spacing = 1 /\ c.opt = 0),
